@@ -90,6 +90,8 @@ class MultiCrossBlockRepeat(Block):
         self.alignment = normalize_alignment(who, alignment)
 
         crossings = [c for c in crossings if len(c) > 0]
+        # Geometry is recorded in constraint objects, so never share them with other blocks
+        constraints = [copy.copy(ct) for ct in constraints]
 
         from sweetpea._internal.constraint import Cross, Consistency, Sustain
         from sweetpea._internal.derivation_processor import DerivationProcessor
